@@ -298,7 +298,90 @@ func c16ConcBody(x *X) {
 	s.close()
 }
 
+// LeastTime with three live targets, then Update to every smaller list: the heap of the policy
+// must not keep removed targets.
+func c16LeastTimeShrink(x *X) {
+	s := newCliSys(x, rpc.LeastTimeScheduling, "a", "b", "c")
+	s.c.Tick = 10 * time.Second // after the first probe round only estimates decide
+	all := []string{"a", "b", "c"}
+	fast := x.Choose(3)
+	for i, a := range all {
+		s.rt.up[a] = true
+		s.rt.lat[a] = 20 * time.Millisecond
+		if i == fast {
+			s.rt.lat[a] = time.Millisecond
+		}
+	}
+	s.tick(2)
+	warm := 2 + x.Choose(4)
+	for i := 0; i < warm; i++ {
+		s.c.Call("X.Y", nil, nil)
+		if i < 3 {
+			vt.Advance(11 * time.Second) // let the probe rotation measure every target once
+			vs.Quiesce()
+		}
+	}
+	lists := [][]string{{"a", "b"}, {"a", "c"}, {"b", "c"}, {"a"}, {"b"}, {"c"}, {"c", "b", "a"}}
+	nl := lists[x.Choose(len(lists))]
+	s.c.Update(nl...)
+	ticksAfter := x.Choose(3)
+	s.tick(ticksAfter)
+	from := len(s.rt.routed)
+	for i := 0; i < 6; i++ {
+		done := false
+		vs.GoNamed("caller", func() { clientCall(s.c, []int{cfCall, cfGo, cfPing}[i%3]); done = true })
+		vs.Quiesce()
+		for k := 0; k < 6 && !done; k++ {
+			s.tick(1)
+		}
+	}
+	for _, r := range s.rt.userRoutes(from) {
+		if !member(nl, r.addr) {
+			x.Fail("C16/routed-to-removed-target", "LeastTime: after Update(%v) returned a %s call was routed to %q (fastest target was %q, %d warm-up calls, %d ticks after the update)", nl, r.method, r.addr, all[fast], warm, ticksAfter)
+		}
+	}
+	x.Outcome("fast=%d warm=%d list=%v ticks=%d", fast, warm, nl, ticksAfter)
+	s.close()
+}
+
+// a health probe of a target is still in flight when Update removes the target; the probe then succeeds
+func c16ProbeInFlight(x *X) {
+	sched := rpc.Scheduling(x.Choose(3))
+	s := newCliSys(x, sched, "a", "x")
+	s.rt.up["a"], s.rt.up["x"] = true, true
+	s.rt.gate["x"] = true // the probe of x blocks inside the transport
+	s.tick(2)
+	nl := [][]string{{"a"}, {"a", "b"}, {}}[x.Choose(3)]
+	s.rt.up["b"] = true
+	s.c.Update(nl...)
+	when := x.Choose(2)
+	if when == 1 {
+		s.tick(1)
+	}
+	s.rt.gate["x"] = false // the late probe result arrives
+	vs.Quiesce()
+	s.tick(2)
+	from := len(s.rt.routed)
+	for i := 0; i < 4; i++ {
+		done := false
+		vs.GoNamed("caller", func() { clientCall(s.c, []int{cfCall, cfGo}[i%2]); done = true })
+		vs.Quiesce()
+		for k := 0; k < 6 && !done; k++ {
+			s.tick(1)
+		}
+	}
+	for _, r := range s.rt.userRoutes(from) {
+		if !member(dedup(nl), r.addr) {
+			x.Fail("C16/routed-to-removed-target", "Update(%v) removed target x while its health probe was in flight; after the probe succeeded a %s call was routed to %q", nl, r.method, r.addr)
+		}
+	}
+	x.Outcome("sched=%d list=%v when=%d", sched, nl, when)
+	s.close()
+}
+
 func init() {
+	register(&Scenario{Prop: "C16", Name: "c16/leasttime-shrink", Quick: []Bound{{0, 0}, {1, 0}}, Thorough: []Bound{{2, 0}}, Body: c16LeastTimeShrink, MaxSteps: 100000})
+	register(&Scenario{Prop: "C16", Name: "c16/probe-in-flight", Quick: []Bound{{1, 0}, {2, 0}}, Thorough: []Bound{{3, 0}}, Body: c16ProbeInFlight, MaxSteps: 100000})
 	register(&Scenario{Prop: "C16", Name: "c16/seq-L3", Quick: []Bound{{0, 0}}, Thorough: []Bound{{1, 0}}, Body: c16SeqBody(3), MaxSteps: 100000})
 	register(&Scenario{Prop: "C16", Name: "c16/seq-L4", Quick: []Bound{}, Thorough: []Bound{{0, 0}}, Body: c16SeqBody(4), MaxSteps: 100000, BudgetT: 300})
 	register(&Scenario{Prop: "C16", Name: "c16/concurrent", Quick: []Bound{{1, 0}, {2, 0}}, Thorough: []Bound{{3, 0}}, Body: c16ConcBody, MaxSteps: 100000})
